@@ -64,11 +64,16 @@ def check_metadata(report):
         if any(g is not None for g, _ in raw):
             return raw, False
         return guarded_list_items(_nf(m, cfi, keep={"client_name", "async_client_name"})), True      # e.g. a comprehension over a table of kinds
+    from .common_rules import local_env
+    from ..pynorm import subst as _subst
     for cfi in cands:
         items_, normal_ = table_items(cfi)
+        env_ = local_env(cfi.node)
         for guard, a0 in items_:
             if guard is None:
                 continue
+            # a condition hoisted into a local (`use_grpc = "grpc" in options.transport`) is read through its definition
+            guard = ast.unparse(_subst(_subst(ast.parse(guard, mode="eval").body, env_), env_))
             kind = "grpc" if pmatch("'grpc' in _O_.transport", ast.parse(guard, mode="eval").body) is not None else \
                 ("rest" if pmatch("'rest' in _O_.transport", ast.parse(guard, mode="eval").body) is not None else None)
             if kind is None:
